@@ -119,6 +119,8 @@ def main(argv):
                 res.violations.append(common.Violation(what=k['what'], fingerprint=fp, replay=k['witness']))
             else:
                 res.notes.append(f'known finding {k.get("id")} no longer reproduces on its witness (got {fp})')
+    if common.DRIVER_SKIPPED:
+        res.bump('cases left to the Python oracle: the compiled model did not answer within its per-case limit', len(common.DRIVER_SKIPPED))
     if common.LOG_COUNT['DEBUG']:
         res.bump('histories / generations run with the toolbox logging at DEBUG', common.LOG_COUNT['DEBUG'])
         res.bump('histories / generations run at the default log level', common.LOG_COUNT['default'])
